@@ -419,7 +419,7 @@ def r07e(model, ctx):
               "user-supplied attributes must be applied after the automatic `src`, so that an attribute literally named "
               "`src` keeps its given value", f"{RTLIL}:{f.lineno}")
     # write port enable width: one bit per data bit
-    fw = model.func(f"{IR}::NetlistEmitter.emit_write_port")
+    fw = model.func_view(f"{IR}::NetlistEmitter.emit_write_port")
     ok = any(pmatch("_nir.Value([en[bit // port._granularity] for bit in range(len(port._data))])", n) is not None
              for n in ast.walk(fw))
     ctx.check(ok, R, "emit_write_port:EN-width", "en expanded over range(len(port._data))",
